@@ -317,7 +317,8 @@ EXTRA_TEXT = {
     "C04": "Single reassignments beyond these sizes: for deep forests on 4-5 points TLC (MoveRel.tla) gives the candidate set of a reassignment, the real DataPointSampler._sample_tree is run from every member with all outcomes enumerated, and the block must be invariant.",
     "C05": "LossProb.tla (option resolution of run(), cluster-table column, truncal cluster, lost-cluster test with the exact law of distinct chromosomes, prior terms; all instances over 3 clusters x 2 samples x 128 option records model-checked) gives the prior of every cluster for 60+ harness instances (thorough 240+) driven through phyclone.run.run up to the end of load_data: each data point's two prior terms must be size x log p / size x log(1-p) for the probability the documented options and the cluster table resolve to; a differing truncal cluster alone is MODEL-DRIFT. A cluster file listing mutations the loader drops: every data point is the sum of its kept members' grids. Multi-sample files mix copy numbers, error rates, tumour contents and zero-depth samples (no reads in the first or the middle sample) per row.",
     "C06": "Walks on data of magnitude 1e5 and histories on a 1000-point grid (FFT path; a fixed sibling history plus random walks) are snapshotted step by step and compared at the end with rebuilds made with cold memo tables.",
-    "C07": "Every forest on 5 points is also rebuilt the way the subtree move builds trees (cut a clone's subtree, graft a fresh one of the same shape or one clone); the recorded entries of chains on nested-clone data with outliers are re-verified at the END of the run.",
+    "C07": "The recorded chains (incl. one event per single-point reassignment inside a data-point sweep) are validated by TLC against MoveRel.tla (TraceMoves.tla): every call receives the tree the previous step produced, every output is a forest over the same data (verdict), each reassignment / regraft / subtree update is a step of the move relations (diagnostic, MODEL-DRIFT). Every forest on 5 points is also rebuilt the way the subtree move builds trees (cut a clone's subtree, graft a fresh one of the same shape or one clone); the recorded entries of chains on nested-clone data with outliers are re-verified at the END of the run.",
+    "C01": "Recorded conditional-SMC swarms (incl. quantised particle weights) are validated by TLC against PGibbsSM.tla (TracePGibbs.tla): retained path, lineages, and the adaptive-resampling rule (resample iff relative ESS <= threshold; uniform weights afterwards) - diagnostic for this property.",
     "C09": "The order each sampler actually hands to its SMC pass (burn-in and particle Gibbs; the SMC classes replaced by a capturing stub) must have the same law.",
     "C11": "Each worker re-writes the trace at the SAME path for every trace it handles (a long-lived driver): the commands must summarise what the file holds now.",
     "C12": "Traces holding several different trees, incl. exact 50/50 splits between incompatible clades, go through all commands (counts / weighted / threshold 0.75): they must complete with complete, tree-consistent tables.",
